@@ -650,6 +650,17 @@ func (env *CEnv) call(n *Node) cval {
 	case "len":
 		v := env.eval(n.Kids[0])
 		return cval{V: env.ex.lenOf(env.scratchState(), v.V)}
+	case "text":
+		// text(sb): what a local strings.Builder holds (see the Builder entries of the environment)
+		v := env.eval(n.Kids[0])
+		if p, ok := v.V.(*PtrV); ok {
+			if sv, ok := env.ex.load(env.scratchState(), p, nil).(*StructV); ok && len(sv.F) == 2 {
+				if b, ok := sv.F[1].(*BytesV); ok {
+					return cval{V: b.T}
+				}
+			}
+		}
+		cfail("text(%s): not a local strings.Builder", showValue(v.V))
 	case "ite":
 		c := env.term(n.Kids[0])
 		a, b := env.eval(n.Kids[1]), env.eval(n.Kids[2])
@@ -1017,7 +1028,7 @@ var specSigs = map[string]string{
 	"b64enc!std": SStr, "b64enc!url": SStr, "b64dec!std": SStr, "b64dec!url": SStr,
 	"json_ok": SBool, "json_str": SStr, "time_format": SStr, "time_parse": SInt, "time_parse_ok": SBool, "fresh_error": SBool,
 	"regex_match": SBool, "count_upper": SInt, "count_lower": SInt, "count_numeric": SInt, "count_symbols": SInt, "count_whitespace": SInt,
-	"str_lower": SStr, "filepath_base": SStr, "str_split": SArr(SInt, SStr), "str_split_len": SInt, "str_join": SStr, "itoa": SStr, "atoi": SInt,
+	"header_get": SStr, "str_lower": SStr, "filepath_base": SStr, "str_split": SArr(SInt, SStr), "str_split_len": SInt, "str_join": SStr, "itoa": SStr, "atoi": SInt,
 }
 
 func (env *CEnv) macro(name string) *SpecMacro {
